@@ -35,6 +35,10 @@ def x_obligations(tier):
     (s_, epre_, esuf_, fixed_, junk_, jpre_, jsuf_) = ("m/p/x/it/01/s/*", "m/p/x/it/01/s/", "", "m/p/x/it/01/s/d;m/p/x/it/01/s/i;m/p/x/it/01/p/t", "@/M/PROPS/x/it/01/x-it-SAV.02.d", "", "")
     o.append(Obl(f"C11-paths[miniB,{s_}]", "xhair.obl.c11", "paths_agree", env={"VF_CONF": "miniB", "VF_SEARCH": s_, "VF_EPRE": epre_, "VF_ESUF": esuf_, "VF_FIXED": fixed_, "VF_JUNK": junk_, "VF_JPRE": jpre_, "VF_JSUF": jsuf_},
                  timeout=T, path_timeout=200, family="C11-paths", bound="miniB: search over two types sharing one glob pattern; three path configurations over the glob model"))
+    (s_, epre_, esuf_, fixed_, junk_, jpre_, jsuf_) = CASES[3]
+    o.append(Obl(f"C11-paths[{s_},list first,caches on]", M, "paths_agree", env={"VF_SEARCH": s_, "VF_EPRE": epre_, "VF_ESUF": esuf_, "VF_FIXED": fixed_, "VF_JUNK": junk_, "VF_JPRE": "", "VF_JSUF": "", "VF_LISTFIRST": "1", "VF_CACHES": "1"},
+                 timeout=90 if tier == "quick" else T, path_timeout=200, expect="find", family="C11-paths",
+                 bound="a search unfolding into several types of one string, answered by FindInList first and by FindInPaths afterwards, spil's caches ON (keys are realised: bug-hunt)"))
     for (s, epre, esuf, fixed) in ALL_CASES:
         o.append(Obl(f"C11-all[{s}]", M, "all_agree", env={"VF_SEARCH": s, "VF_EPRE": epre, "VF_ESUF": esuf, "VF_FIXED": fixed}, timeout=T, family="C11-all",
                      bound="FindInAll over constants + FindInPaths (glob stub)"))
